@@ -163,6 +163,16 @@ func (fr *Frame) bigCall(st *State, fn *ssa.Function, args []Value) (Value, bool
 		return set(F.App("big.exp", SInt, ld(1), ld(2), ld(3)))
 	case "SetBytes": // big-endian value of the bytes
 		se := &SpecEnv{fr: fr, st: st, old: st, vars: map[string]Value{}, pkg: fr.fn.Pkg, fn: fr.fn}
+		if sl, ok := args[1].(*SliceV); ok && sl.Obj != nil && !sl.Len.IsConst() {
+			// a window b[e : e+c]: the length (e+c) - e is a constant once normalised as a polynomial
+			saved := F.Distribute
+			F.Distribute = true
+			n := F.fromPoly(F.asPoly(sl.Len))
+			F.Distribute = saved
+			if n.IsConst() {
+				args[1] = &SliceV{Obj: sl.Obj, Path: sl.Path, Off: sl.Off, Len: n, Cap: sl.Cap}
+			}
+		}
 		if sl, ok := args[1].(*SliceV); ok && sl.Len.IsConst() && sl.Obj != nil && sl.Len.K.Int64() <= 256 {
 			return set(se.bytesVal(sl, true))
 		}
